@@ -805,7 +805,16 @@ class Engine:
         for stride, o in dyn:
             iv = fr.loc[o.a] if o.k == 'local' else o.a
             if type(iv) is not int:
-                if is_sym(iv): iv = self.concretize(st, work, iv, o.t.a)
+                if is_sym(iv):
+                    # an index the solver can drive outside the object it indexes is an out-of-bounds address computation (e.g. an indeterminate
+                    # array index read from uninitialised storage): reported with a model, instead of enumerating its 2^n values
+                    ob = st.mem.get(base[0]) if base[0] else None
+                    if ob is not None and not ob.freed and ob.kind != 'func' and stride:
+                        bv = self.tobv(iv, o.t.a); w = max(o.t.a, 64) + 8
+                        tot = z3.SignExt(w - o.t.a, bv) * z3.BitVecVal(stride, w) + z3.BitVecVal(off, w)
+                        bad, mdl = self.sat(st, z3.Or(tot < 0, tot > ob.size))
+                        if bad: raise Violation('address computation out of bounds: symbolic index can leave the %s object of size %d (%s)' % (ob.kind, ob.size, ob.name), 'memory', model=mdl)
+                    iv = self.concretize(st, work, iv, o.t.a)
                 elif type(iv) is Bad:
                     fr.loc[ins.res] = iv; fr.ip += 1; return
                 else: raise Inconclusive('pointer used as an index')
